@@ -381,7 +381,13 @@ KindAct(j) ==
     [] j = 28 -> \E k \in {RE(Keys)}, v \in {RE(0..(MaxVer + 1))} : GetVersioned(k, v)
     [] j = 29 -> \E v \in {RE(exists \cup {1})} : ExportImport(v)
     [] j = 30 -> \E k \in {RE(Keys)}, v \in {RE(Vals)} : Set(k, v)
-NextSim == (\E j \in kinds : KindAct(j)) /\ kinds' = {RE(1..NKinds), RE(1..NKinds), RE(1..NKinds), RE(1..NKinds), 30}
+\* universes of 1000 keys and more start with a fill of all keys (ascending: 90/10 splits, > 32 nearly full
+\* leaves; descending: 50/50 splits, half-full leaves), so that the root is an inner node over inner nodes
+\* and the later range removals merge and redistribute at both levels
+NextSim == /\ IF n = 1 /\ NK >= 1000
+              THEN \E s \in {RE(0..5)}, a \in {RE(BOOLEAN)} : Fill(1, NK, s, a)
+              ELSE \E j \in kinds : KindAct(j)
+           /\ kinds' = {RE(1..NKinds), RE(1..NKinds), RE(1..NKinds), RE(1..NKinds), 30}
 
 \* skeleton generator (C24): hash-relevant calls only
 NextSkel == \E j \in {RE(1..3)} : IF j = 1 /\ dirty THEN SaveVersion ELSE SimWrites
